@@ -655,7 +655,7 @@ def search_for_paths(logger: ConsolePrinter, processor: EYAMLProcessor,
             refs = data.merge if hasattr(data, "merge") else []
             for (_, ref_node) in refs:
                 for anchor_name, anchor_node in all_anchors.items():
-                    if anchor_node == ref_node:
+                    if anchor_node is ref_node:
                         tmp_path = (build_path + "[&{}]".format(
                             YAMLPath.escape_path_section(
                                 anchor_name, pathsep)))
